@@ -23,7 +23,7 @@ pub fn explore(opts: &Opts) -> Explored {
             }
         }
     }
-    let variants: Vec<u64> = vec![opts.seed % 3, (opts.seed + 1) % 3, 3, 4];
+    let variants: Vec<u64> = if IS_F32 { vec![opts.seed % 3, (opts.seed + 1) % 3, 3, 4, 5] } else { vec![opts.seed % 3, (opts.seed + 1) % 3, 3, 4, 5, 6] };
     let local = par(opts, space.len(), |i, l| {
         let c = &space[i];
         l.states += 1;
@@ -95,6 +95,59 @@ pub fn explore(opts: &Opts) -> Explored {
             l.sample(&case);
         }
     });
+    // both operands are views of one buffer with different leading layouts (x and a reshape of x)
+    let mut local = local;
+    {
+        let l = &mut local;
+        for (ad, bd) in [
+            (vec![2usize, 1, 2, 3], vec![1usize, 2, 2, 3]),
+            (vec![2, 2, 3], vec![2, 1, 2, 3]),
+            (vec![3, 1, 2, 2], vec![1, 3, 2, 2]),
+            (vec![2, 3], vec![3, 2]),
+            (vec![2, 2], vec![1, 2, 2]),
+            (vec![4], vec![2, 2]),
+        ] {
+            for ta in [false, true] {
+                for tb in [false, true] {
+                    let case = || format!("matmul of a={} ta={} with its reshape {} tb={} (same buffer)", fmt_dims(&ad), ta as u8, fmt_dims(&bd), tb as u8);
+                    if !l.want(&case) {
+                        continue;
+                    }
+                    let n = numel(&ad);
+                    let av = vals(n, 0, opts.seed % 3);
+                    let ra = T::from_f64(ad.clone(), &av);
+                    let rb = ra.reshape(&bd).unwrap();
+                    let op = OpK::Matmul { ta, tb, bias: false };
+                    let expect = apply_ref(&op, &[&ra, &rb]);
+                    if let Err(RErr::Unspecified) | Err(RErr::Domain) = expect {
+                        continue;
+                    }
+                    l.states += 1;
+                    l.transitions += 1;
+                    l.validated += 1;
+                    let a = arr(&ad, &av);
+                    let got = run_catch(|| {
+                        let b = a.reshape(bd.clone());
+                        let r = apply_impl(&op, &[&a, &b], 0);
+                        (r.dimensions().to_vec(), r.values().to_vec())
+                    });
+                    match (&expect, &got) {
+                        (Err(_), Err(_)) => {}
+                        (Err(_), Ok((d, _))) => l.violation("aliased-views", case(), format!("must be refused but returned {:?}", d)),
+                        (Ok(r), Err(m)) => l.violation("aliased-views", case(), format!("admissible (result {:?}) but panicked: {}", r.dims, m)),
+                        (Ok(r), Ok((d, v))) => {
+                            l.outcome(digest_vals(d, v));
+                            if d != &r.dims {
+                                l.violation("aliased-views", case(), format!("dimensions {:?}, reference {:?}", d, r.dims));
+                            } else if let Err(e) = cmp_slice(v, &r.x, Part::Value) {
+                                l.violation("aliased-views", case(), e);
+                            }
+                        }
+                    }
+                }
+            }
+        }
+    }
     Explored {
         local,
         bounds: json!({"configurations": space.len(), "rows_inner_cols": if opts.tier == Tier::Quick {"1..3"} else {"1..4"},
